@@ -355,6 +355,13 @@ func (c TypingCase) source() string {
 		body = fmt.Sprintf("<div><p>\n\t\tif b {\n\t\t\t<%s %s>x</%s>\n\t\t}\n\t</p></div>", el, a, el)
 	case "in-loop":
 		body = fmt.Sprintf("for _, s2 := range []string{s} {\n\t\t<%s %s title={ s2 }>x</%s>\n\t}", el, a, el)
+	case "after-same-name-elsewhere":
+		// the same attribute name on elements where it is not a URL attribute, earlier in the file
+		body = fmt.Sprintf("<link %s={ s }/>\n\t<div %s={ s } %s={ s }>d</div>\n\t<%s %s>x</%s>", attr, "href", "action", el, a, el)
+	case "second-template":
+		body = fmt.Sprintf("<span %s={ s }>first</span>\n}\n\ntempl T2(s string, u templ.SafeURL) {\n\t<%s %s>x</%s>", attr, el, a, el)
+	case "before-same-name-elsewhere":
+		body = fmt.Sprintf("<%s %s>x</%s>\n\t<span %s={ s }>later</span>", el, a, el, attr)
 	}
 	return "package p\n\ntype myStr string\n\nfunc ident(s string) string { return s }\n\ntempl T(s string, u templ.SafeURL, b bool, attrs templ.Attributes) {\n\t" + body + "\n}\n"
 }
@@ -420,7 +427,7 @@ func decideTyping(c TypingCase) error {
 func TestPropTyping(t *testing.T) {
 	n := 0
 	for _, el := range []string{"a", "form"} {
-		for _, pos := range []string{"plain", "with-others", "cond-then", "cond-else", "multiline", "after-spread", "nested", "in-loop"} {
+		for _, pos := range []string{"plain", "with-others", "cond-then", "cond-else", "multiline", "after-spread", "nested", "in-loop", "after-same-name-elsewhere", "second-template", "before-same-name-elsewhere"} {
 			for _, et := range []string{"string", "string-call", "named-string", "string-concat", "safeurl", "url-call", "safeurl-var"} {
 				for _, sp := range []string{"", "upper", "title", "alternating", "el-tail-upper", "el-first-upper", "el-all-upper"} {
 					c := TypingCase{Element: el, Position: pos, ExprType: et, Spelling: sp}
